@@ -170,6 +170,29 @@ def run(ctx):
     res.site(key, True, {"resolve_calls": len(rc), "rebuild_on_all_paths": bool(rb) and rcr.all_paths_pass(0, rb), "verdict": "ok" if ok else "VIOLATION"})
     if not ok:
         res.find(key, rcr.loc(), "resolve_placeholders_with_custom_resolvers does not resolve every instruction and then rebuild the used-qubit cache on every path", "after resolution get_used_qubits() still lists placeholders")
+    # identity of placeholders: two placeholders are the same iff they share the Arc allocation.  `address()` (used by
+    # Hash / Ord / Eq) must be the address of the allocation itself, never something derived from the contents (an empty
+    # String has no buffer: all empty-based label placeholders would collapse into one)
+    from qv.engine import callee_path as _cp34
+    nid = 0
+    for tyname in ("quil_rs::instruction::control_flow::TargetPlaceholder", "quil_rs::instruction::qubit::QubitPlaceholder"):
+        addr = [f_ for f_ in db.fns if f_.path == tyname + "::address"]
+        eqs = [f_ for f_ in db.fns if f_.path == "<%s as std::cmp::PartialEq>::eq" % tyname]
+        short = tyname.rsplit("::", 1)[-1]
+        key = "K5|placeholder-identity|%s" % short
+        if len(eqs) != 1:
+            res.missing_anchor("PartialEq for " + short)
+            continue
+        fns_ = addr + eqs
+        calls = sorted({_cp34(c) for f_ in fns_ for bb, t, c in f_.calls() if c})
+        allowed = lambda p_: ("sync::Arc" in p_ and p_.rsplit("::", 1)[-1] in ("deref", "ptr_eq", "as_ptr")) or p_.endswith("::address") or ("for usize>" in p_) or p_.endswith("addr") or p_.endswith("expose_provenance")
+        bad = [p_ for p_ in calls if not allowed(p_)]
+        nid += 1
+        ok = not bad and bool(calls)
+        res.site(key, True, {"calls": [p_.rsplit("::", 2)[-2:] for p_ in calls], "verdict": "ok" if ok else "VIOLATION"})
+        if not ok:
+            res.find(key, fns_[0].loc(), "the identity of %s is derived through %s instead of the address of its Arc allocation: distinct placeholders can compare equal" % (short, [p_.rsplit("::", 2)[-2:] for p_ in bad]), "two label placeholders created with the empty base label are resolved to one and the same label")
+    res.count("placeholder_identity_types", nid, floor=2)
     res.explanation = "Type-directed coverage of the placeholder traversals over the %d body-capable variants, plus structural checks of the two uniqueness mechanisms (membership loop + insertion on all paths; filtered unbounded range zipped with an IndexSet)." % len(bc)
     res.assumptions = ["IndexSet de-duplicates placeholders; HashSet::contains/insert as documented"]
     return res
